@@ -312,7 +312,7 @@ func RunTLC(env *Env, o TLCOpts) *TLCResult {
 	if o.HeapGB == 0 {
 		o.HeapGB = 6
 	}
-	args := []string{"-XX:+UseParallelGC", "-Xss64m", fmt.Sprintf("-Xmx%dg", o.HeapGB)}
+	args := []string{"-XX:+UseParallelGC", "-Xss64m", fmt.Sprintf("-Xmx%dg", o.HeapGB), "-Djava.io.tmpdir=" + dir}
 	if o.DFS {
 		args = append(args, "-Dtlc2.tool.queue.IStateQueue=StateDeque")
 	}
